@@ -210,7 +210,14 @@ def make_family(name, existing, reqs, fault_kinds=None, alias=None):
                        'not the consumer\'s when its write began' %
                        reqs[i].name, sig=reqs[i].name)
         # (c) rejected with 409 placement.concurrent_update, and no effect
+        # a fault at COMMIT is not retried by the unchanged service: the
+        # request it struck may answer 500 (C17 judges that answer)
+        excused = len(sched.faults.injected) if fault_kinds and any(
+            k.startswith('commit-') for k in fault_kinds) else 0
         for i, r in enumerate(results):
+            if r.status >= 500 and excused:
+                excused -= 1
+                continue
             if r.status >= 500:
                 runner.violation(ctx, 'no-5xx', '%s: %d %s' % (
                     reqs[i].name, r.status, (r.error_detail or '')[:200]),
@@ -243,6 +250,15 @@ def families(tier):
         make_family('existing/put+put/deadlock+rollback', True,
                     [put(1, 1, 'int'), put(2, 2, 'int')],
                     fault_kinds=('deadlock+rollback',)),
+        # the COMMIT of one writer's transaction fails (reported as a
+        # deadlock, e.g. a certification failure): whatever is retried, the
+        # generation the request carried is what must be compared
+        make_family('existing/post+put/commit-deadlock', True,
+                    [post(1, 1, 'int'), put(2, 2, 'int')],
+                    fault_kinds=('commit-deadlock',)),
+        make_family('existing/put+put/commit-deadlock', True,
+                    [put(1, 1, 'int'), put(2, 2, 'int')],
+                    fault_kinds=('commit-deadlock',)),
         # 1.38: creators / writers that name different consumer types (the
         # loser's type must not stick)
         make_family('new/put-null[INSTANCE]+put-null[MIGRATION]@1.38', False,
